@@ -384,7 +384,12 @@ def small_scope(ctx, pool_ref):
 def make_struct(layout):
   """layout: (n_fields, static_mask, default_mask, inherit) -> class, field names, static names."""
   from flax import struct
-  n, smask, dmask, inherit = layout
+  n, smask, dmask, inherit = layout[:4]
+  # metadata passed to struct.field: 0 none, 1 a literal dict per field, 2 ONE dict object reused by every field (a module-level
+  # DOC = {...} constant) - the pytree_node flag of one field must not leak into another through it
+  meta_mode = layout[4] if len(layout) > 4 else 0
+  shared_meta = {'doc': 'shared'}
+  meta = lambda: {} if meta_mode == 0 else (dict(metadata={'doc': 'own'}) if meta_mode == 1 else dict(metadata=shared_meta))  # noqa: E731
   ann, ns, statics = {}, {}, []
   # fields without defaults must precede fields with defaults
   order = sorted(range(n), key=lambda i: (dmask >> i) & 1)
@@ -397,9 +402,11 @@ def make_struct(layout):
     ann[name] = object
     if static:
       statics.append(name)
-      ns[name] = struct.field(pytree_node=False, default='d%d' % i) if has_default else struct.field(pytree_node=False)
+      ns[name] = struct.field(pytree_node=False, default='d%d' % i, **meta()) if has_default else struct.field(pytree_node=False, **meta())
     elif has_default:
-      ns[name] = struct.field(default=float(i))
+      ns[name] = struct.field(default=float(i), **meta())
+    elif meta_mode:
+      ns[name] = struct.field(**meta())
   ns['__annotations__'] = ann
   if inherit == 0:
     cls = struct.dataclass(type('S', (), ns))
@@ -407,7 +414,7 @@ def make_struct(layout):
     cls = type('P', (struct.PyTreeNode,), ns)
     for lvl in range(inherit - 1):
       extra = 'e%d' % lvl
-      cls = type('P%d' % lvl, (cls,), {'__annotations__': {extra: object}, extra: struct.field(default=float(100 + lvl))})
+      cls = type('P%d' % lvl, (cls,), {'__annotations__': {extra: object}, extra: struct.field(default=float(100 + lvl), **meta())})
       names.append(extra)
   return cls, names, statics
 
@@ -516,6 +523,10 @@ def run(ctx):
   if ctx.tier == 'quick':
     r = ctx.rng('layouts')
     layouts = r.sample(layouts, 60)
+  # the same layouts again with metadata handed to struct.field (own dict per field / one shared dict object)
+  mixed = [l for l in layouts if l[0] >= 2 and 0 < l[1] < 2 ** l[0] - 1]
+  layouts = layouts + [l + (1 + k % 2,) for k, l in enumerate(mixed[: 40 if ctx.tier == 'quick' else len(mixed)])] \
+      + [l + (2,) for l in mixed[: 20 if ctx.tier == 'quick' else 0]]
   for i, lay in ctx.items(layouts, 'struct'):
     with ctx.case('struct', i, lay, nontrivial=lay[0] >= 2):
       run_struct(ctx, i, lay, ctx.rng('struct', i))
